@@ -16,7 +16,7 @@ RULE = (
     "decreasing) from the same lattice, 1-3 columns with different profiles. The whole weight matrix of every column is "
     "extracted from the real kernel by passing the identity as data over a leading dimension and, separately, by n true "
     "1-D calls; compared with exact rational overlap weights (1e-12); a homogeneous cell must put weight 1 into exactly "
-    "one bin containing it; column sums are 1 when the cell lies within the bins; weights >= 0; merging two adjacent bins "
+    "one bin containing it (target_data and bins are handed over times 2**e, e in {0, -43, -60, 30, 100}: an exact scaling); column sums are 1 when the cell lies within the bins; weights >= 0; merging two adjacent bins "
     "adds their rows; reversed bins reverse the rows. Grid.transform(method='conservative') is run with target_data on "
     "outer or on center (bounds = model interp with extension), random extra dims/order, eagerly and dask-chunked over "
     "non-axis dims under synchronous and threaded schedulers, and compared with W applied to the data; the caller's data, "
@@ -52,6 +52,7 @@ def gen_case(rng, i, tier):
         # integer-typed target_data (an integer depth coordinate, say) while the bin edges stay fractional
         thetas = [[float(int(v)) for v in th] for th in thetas]
     return {"n": n, "bins": bins, "decreasing": rng.random() < 0.4, "thetas": thetas, "inside": inside, "tdtype": tdtype,
+            "scale_exp": 0 if tdtype == "int64" else rng.choice([0] * 6 + [-43, -60, 30, 100]),
             "path": rng.choice(["kernel", "kernel", "grid-outer", "grid-center"]), "dseed": rng.getrandbits(31),
             "extra_pos": rng.sample(["left", "right", "inner"], rng.choice([0, 0, 1, 2])),
             "order_seed": rng.getrandbits(8), "dask": rng.choice([None, None, "synchronous", "threads"]),
@@ -95,7 +96,7 @@ def features(desc):
     homog = any(a == b for th in desc["thetas"] for a, b in zip(th[:-1], th[1:]))
     onedge = any(v in bins for th in desc["thetas"] for v in th)
     return (desc["path"], desc["n"], len(bins) - 1, "dec" if desc["decreasing"] else "inc", len(desc["thetas"]), homog, onedge, desc["inside"],
-            desc.get("tdtype", "float64"))
+            desc.get("tdtype", "float64"), desc.get("scale_exp", 0))
 
 
 def run_case(ctx, desc):
@@ -104,13 +105,16 @@ def run_case(ctx, desc):
     n, bins, thetas = desc["n"], desc["bins"], desc["thetas"]
     ncol = len(thetas)
     m = len(bins) - 1
-    b = np.array(bins[::-1] if desc["decreasing"] else bins, float)
+    # target_data and bins are handed over multiplied by a power of two (an exact operation in binary floating point, so
+    # every overlap fraction is unchanged): tracers of magnitude 1e-13 or 1e9 are redistributed like those of magnitude 1
+    SC = 2.0 ** desc.get("scale_exp", 0)
+    b = (np.array(bins[::-1] if desc["decreasing"] else bins, float) * SC)
     nontrivial = m > 1 or features(desc)[5]
     if desc["path"].startswith("grid"):
         return run_grid(ctx, desc, nontrivial)
     ctx.judged(features(desc), nontrivial)
     phi = np.broadcast_to(np.eye(n)[:, None, :], (n, ncol, n)).copy()  # [unit i, column, cell]
-    th = np.broadcast_to(np.array(thetas, float)[None], (n, ncol, n + 1)).copy().astype(desc.get("tdtype", "float64"))
+    th = np.broadcast_to((np.array(thetas, float) * SC)[None], (n, ncol, n + 1)).copy().astype(desc.get("tdtype", "float64"))
     keep = (phi.copy(), th.copy(), b.copy())
     try:
         out = T.interp_1d_conservative(phi, th, b)  # [unit i, column, bin]
@@ -146,7 +150,7 @@ def run_case(ctx, desc):
             e = np.zeros(n)
             e[i] = 1.0
             try:
-                o = T.interp_1d_conservative(e, np.array(thetas[c], float).astype(desc.get("tdtype", "float64")), b)
+                o = T.interp_1d_conservative(e, (np.array(thetas[c], float) * SC).astype(desc.get("tdtype", "float64")), b)
             except Exception as ex:
                 ctx.violation("kernel-returns", f"1-D call raised {type(ex).__name__}: {str(ex)[:200]}")
                 return
@@ -157,10 +161,10 @@ def run_case(ctx, desc):
     # reversal: decreasing bins only reverse the output
     ctx.judged(("reversal",) + features(desc)[1:4], True)
     data = gen.quarter_data(desc["dseed"], (ncol, n))
-    tharr = np.array(thetas, float).astype(desc.get("tdtype", "float64"))
+    tharr = (np.array(thetas, float) * SC).astype(desc.get("tdtype", "float64"))
     try:
-        inc = T.interp_1d_conservative(data, tharr, np.array(bins, float))
-        dec = T.interp_1d_conservative(data, tharr, np.array(bins[::-1], float))
+        inc = T.interp_1d_conservative(data, tharr, (np.array(bins, float) * SC))
+        dec = T.interp_1d_conservative(data, tharr, (np.array(bins[::-1], float) * SC))
         if inc.shape != dec.shape or not np.allclose(dec[..., ::-1], inc, rtol=0, atol=1e-12):
             ctx.violation("decreasing-bins-reverse-output", f"{ncol} column(s): output for decreasing bins is not the reversed output for increasing bins")
             return
@@ -172,7 +176,7 @@ def run_case(ctx, desc):
             ctx.judged(("merge",) + features(desc)[1:4], True)
             k = desc["merge_at"]
             merged_bins = bins[:k] + bins[k + 1:]
-            mo = T.interp_1d_conservative(data, tharr, np.array(merged_bins, float))
+            mo = T.interp_1d_conservative(data, tharr, (np.array(merged_bins, float) * SC))
             want = np.concatenate([inc[..., : k - 1], inc[..., k - 1: k] + inc[..., k: k + 1], inc[..., k + 1:]], -1)
             homog_on_edge = any(a == b2 == bins[k] for th in thetas for a, b2 in zip(th[:-1], th[1:]))
             if not np.allclose(mo, want, rtol=0, atol=1e-11):
@@ -190,6 +194,9 @@ def run_grid(ctx, desc, nontrivial):
     n, bins, thetas = desc["n"], desc["bins"], desc["thetas"]
     ncol = len(thetas)
     m = len(bins) - 1
+    # target_data and bins are handed over multiplied by a power of two (an exact operation in binary floating point, so
+    # every overlap fraction is unchanged): tracers of magnitude 1e-13 or 1e9 are redistributed like those of magnitude 1
+    SC = 2.0 ** desc.get("scale_exp", 0)
     on_center = desc["path"] == "grid-center"
     pos = ["center", "outer"] + desc["extra_pos"]
     layout = {"axes": [{"name": "Z", "pos": [[p, f"z_{p[:2]}"] for p in pos], "n": n}]}
@@ -202,12 +209,12 @@ def run_grid(ctx, desc, nontrivial):
     if on_center:
         # n values on centres; the model's bounds are their interpolation to outer with nearest-value extension
         cvals = [th[:n] for th in thetas]
-        td = xr.DataArray(np.array(cvals, float).astype(desc.get("tdtype", "float64") if desc.get("tdtype") != "int64" else "float64"), dims=["col", "z_ce"], name="dens")
+        td = xr.DataArray((np.array(cvals, float) * SC).astype(desc.get("tdtype", "float64") if desc.get("tdtype") != "int64" else "float64"), dims=["col", "z_ce"], name="dens")
         bounds = [[c[0]] + [(c[k - 1] + c[k]) / 2 for k in range(1, n)] + [c[-1]] for c in cvals]
     else:
-        td = xr.DataArray(np.array(thetas, float).astype(desc.get("tdtype", "float64")), dims=["col", "z_ou"], name="dens")
+        td = xr.DataArray((np.array(thetas, float) * SC).astype(desc.get("tdtype", "float64")), dims=["col", "z_ou"], name="dens")
         bounds = thetas
-    b = np.array(bins[::-1] if desc["decreasing"] else bins, float)
+    b = (np.array(bins[::-1] if desc["decreasing"] else bins, float) * SC)
     target = b if desc["target_as"] == "ndarray" else xr.DataArray(b, dims=["dens_lev"], name="dens_lev")
     newdim = "dens" if desc["target_as"] == "ndarray" else "dens_lev"
     feats = features(desc)
